@@ -10,7 +10,7 @@ import (
 	"verif/harness/internal/simkit"
 )
 
-const commonRule = "rapid-generated histories of 1-3 protocol-following NFSv4.1 client simulators (client IDs, CREATE_SESSION sequence IDs, session IDs, slot sequence IDs, state IDs and file handles are taken from replies only) against the real NewNFS41Program + OpenedFilesPool + NFS handle allocator + in-memory prepopulated directory with counting leaves, inside testing/synctest: every COMPOUND runs in its own goroutine, leaf I/O and VirtualOpenChild can park and are released by generated actions, synctest.Wait after every action, simulated clock. Actions: EXCHANGE_ID (same/new verifier), CREATE_SESSION (next/replay/misordered), DESTROY_SESSION, DESTROY_CLIENTID, orderly shutdown, OPEN (CLAIM_NULL all create modes, CLAIM_FH, CLAIM_PREVIOUS with/without open state of that owner and with every delegate type, the four delegation claims, share_deny 1..3 and undefined values; R/W/RW), OPEN_DOWNGRADE, CLOSE, LOCK (new/existing lock-owner), LOCKT, LOCKU, FREE_STATEID, TEST_STATEID, READ/WRITE/SETATTR (open, lock, anonymous, read-bypass state IDs), REMOVE, RENAME (also over an open file, via PUTROOTFH and via PUTFH), LINK (also of open and of unlinked-but-open files), LOOKUP, PUTFH probes, RECLAIM_COMPLETE, DESTROY_SESSION/DESTROY_CLIENTID inside SEQUENCE, clock advances around the lease time, state-ID deviations (seqid 0/old/future, other file, other client, dead, wrong kind, garbage), retransmissions, duplicates of in-flight requests, false retries, misordered sequence IDs, bad slots and sessions; illegal_op: COMPOUNDs that, after none or some executed operations (PUTROOTFH, LOOKUP+GETFH, OPEN+GETFH, PUTFH+READ/WRITE/CLOSE/LOCK/GETFH, with parks and injected failures as usual), contain an operation NFSv4.1 does not have (the NFSv4.0-only RENEW, OPEN_CONFIRM, SETCLIENTID, SETCLIENTID_CONFIRM, RELEASE_LOCKOWNER, or the literal opcode OP_ILLEGAL) and possibly operations behind it (GETFH, REMOVE, a creating OPEN, another illegal operation): the result at that position must be OP_ILLEGAL/NFS4ERR_OP_ILLEGAL (for the five NFSv4.0 operations also <operation>/NFS4ERR_NOTSUPP, which the error table of RFC 8881 lists) and the last one, the effects of the operations before it stay in the model, nothing behind it is executed (label compound_with_illegal_op); two thirds of them are followed at once by a retransmission or false retry (when completed) or a duplicate or false retry (while parked), and 30% of all false retries are single-place variants of the original request (an operation replaced by OP_ILLEGAL or an NFSv4.0 operation, the illegal operation replaced by another illegal or a valid one, the operations behind it changed, an operation appended or dropped); one-shot injected failures (EIO/EACCES/ENOENT) of VirtualOpenChild, VirtualOpenSelf, file allocation, VirtualRead/VirtualWrite (after the park) and VirtualSetAttributes; initial CREATE_SESSION sequence IDs at 2^32-3..2^32-1 and 0; preset_slot: the last sequence ID of an idle slot is placed at 2^32-3..2^32-1 or 0 through the hook VerifSetSlotSequenceID (what 2^32 requests on the slot would have done; the model then treats the slot as one without a cached reply), after which new requests, retransmissions, in-flight duplicates, false retries and misordered sequence IDs are aimed at that slot 60% of the time, so that they straddle the wrap-around 2^32-1 -> 0; preset_stateid_seqid: the seqid of a live open or lock state ID of a client without a request in flight is placed at 2^32-3..2^32-1 through VerifSetStateIDSeqID, after which OPEN upgrades, OPEN_DOWNGRADE, LOCK, LOCKU, CLOSE, FREE_STATEID, TEST_STATEID and I/O prefer that state ID, the model bumps the seqid as incrementSeqID documents (1 follows 2^32-1, 0 is skipped) and the old/future deviations step back/forward through the same cycle; an observer client that LOCKTs every unit x {READ, WRITE} of the files touched by a release (always in the C20 profile, 10% elsewhere, and always once before the final lease expiry); final drain: release everything, all leases expire, one more call. "
+const commonRule = "rapid-generated histories of 1-3 protocol-following NFSv4.1 client simulators (client IDs, CREATE_SESSION sequence IDs, session IDs, slot sequence IDs, state IDs and file handles are taken from replies only) against the real NewNFS41Program + OpenedFilesPool + NFS handle allocator + in-memory prepopulated directory with counting leaves, inside testing/synctest: every COMPOUND runs in its own goroutine, leaf I/O and VirtualOpenChild can park and are released by generated actions, synctest.Wait after every action, simulated clock. Actions: EXCHANGE_ID (same/new verifier), CREATE_SESSION (next/replay/misordered), DESTROY_SESSION, DESTROY_CLIENTID, orderly shutdown, OPEN (CLAIM_NULL all create modes, CLAIM_FH, CLAIM_PREVIOUS with/without open state of that owner and with every delegate type, the four delegation claims, share_deny 1..3 and undefined values; R/W/RW), OPEN_DOWNGRADE, CLOSE, LOCK (new/existing lock-owner), LOCKT, LOCKU, FREE_STATEID, TEST_STATEID, READ/WRITE/SETATTR (open, lock, anonymous, read-bypass state IDs), REMOVE, RENAME (also over an open file, via PUTROOTFH and via PUTFH), LINK (also of open and of unlinked-but-open files), LOOKUP, PUTFH probes, RECLAIM_COMPLETE, DESTROY_SESSION/DESTROY_CLIENTID inside SEQUENCE, clock advances around the lease time, state-ID deviations (seqid 0/old/future, other file, other client, dead, wrong kind, garbage), retransmissions, duplicates of in-flight requests, false retries, misordered sequence IDs, bad slots and sessions; illegal_op: COMPOUNDs that, after none or some executed operations (PUTROOTFH, LOOKUP+GETFH, OPEN+GETFH, PUTFH+READ/WRITE/CLOSE/LOCK/GETFH, with parks and injected failures as usual), contain an operation NFSv4.1 does not have (the NFSv4.0-only RENEW, OPEN_CONFIRM, SETCLIENTID, SETCLIENTID_CONFIRM, RELEASE_LOCKOWNER, or the literal opcode OP_ILLEGAL) and possibly operations behind it (GETFH, REMOVE, a creating OPEN, another illegal operation): the result at that position must be OP_ILLEGAL/NFS4ERR_OP_ILLEGAL (for the five NFSv4.0 operations also <operation>/NFS4ERR_NOTSUPP, which the error table of RFC 8881 lists) and the last one, the effects of the operations before it stay in the model, nothing behind it is executed (label compound_with_illegal_op); two thirds of them are followed at once by a retransmission or false retry (when completed) or a duplicate or false retry (while parked), and 30% of all false retries are single-place variants of the original request (an operation replaced by OP_ILLEGAL or an NFSv4.0 operation, the illegal operation replaced by another illegal or a valid one, the operations behind it changed, an operation appended or dropped); one-shot injected failures (EIO/EACCES/ENOENT) of VirtualOpenChild, VirtualOpenSelf, file allocation, VirtualRead/VirtualWrite (after the park) and VirtualSetAttributes; too_many_ops / max_ops: CREATE_SESSION asks for ca_maxoperations 100, 2, 8 or 5 (a function of its sequence ID, so that retransmissions carry the same arguments) and the model takes the limit of the session from the reply (the program grants its configured 8 whatever is asked and polices no other negotiated limit: it has no REQ_TOO_BIG/REP_TOO_BIG/REP_TOO_BIG_TO_CACHE, and the harness stays far below the negotiated sizes); too_many_ops sends, with the next sequence ID of an idle slot, the operations of an ordinary request followed by PUTROOTFH/REMOVE/creating OPEN/GETFH padding, 1..4 operations more than the session allows: SEQUENCE must fail with NFS4ERR_TOO_MANY_OPS as the only result, leaf counters, file count, root change ID and state record counts must not move (label compound_too_many_ops), and the sequence ID is not consumed; 90% are followed up at once on the same slot (up to three times) by a retransmission (refused again: too_many_ops_retransmission_refused_again), another oversized request, a retransmission of the request the slot executed before (NFS4ERR_SEQ_MISORDERED if the server discarded its reply, which the code does, or the retained reply; never executed: retransmission_after_too_many_ops:*), or a new request of acceptable size with the same sequence ID, parked or not, which must be executed and verified like any other (slot_reused_after_too_many_ops), after which retransmissions/duplicates/false retries of it behave as usual; oversized operation lists are also used for false retries of completed and in-flight requests, misordered sequence IDs, bad slots and sessions, where the sequence ID decides (oversized_compound_answered_by_sequence_id:*); max_ops pads an ordinary request with PUTROOTFH/GETFH to exactly the granted number of operations, which must all be executed (compound_at_max_operations_executed_completely); every request that is neither parked by the harness nor a duplicate of an in-flight request must have returned at the next quiescence (each request runs in its own goroutine; one that waits on a channel nobody serves, e.g. on a slot that a refused request left marked busy, is reported with the script instead of deadlocking the bubble); initial CREATE_SESSION sequence IDs at 2^32-3..2^32-1 and 0; preset_slot: the last sequence ID of an idle slot is placed at 2^32-3..2^32-1 or 0 through the hook VerifSetSlotSequenceID (what 2^32 requests on the slot would have done; the model then treats the slot as one without a cached reply), after which new requests, retransmissions, in-flight duplicates, false retries and misordered sequence IDs are aimed at that slot 60% of the time, so that they straddle the wrap-around 2^32-1 -> 0; preset_stateid_seqid: the seqid of a live open or lock state ID of a client without a request in flight is placed at 2^32-3..2^32-1 through VerifSetStateIDSeqID, after which OPEN upgrades, OPEN_DOWNGRADE, LOCK, LOCKU, CLOSE, FREE_STATEID, TEST_STATEID and I/O prefer that state ID, the model bumps the seqid as incrementSeqID documents (1 follows 2^32-1, 0 is skipped) and the old/future deviations step back/forward through the same cycle; an observer client that LOCKTs every unit x {READ, WRITE} of the files touched by a release (always in the C20 profile, 10% elsewhere, and always once before the final lease expiry); final drain: release everything, all leases expire, one more call. "
 
 func c18Profile() *profile {
 	return &profile{
